@@ -30,7 +30,7 @@ EXPLANATION = (
     'makeMove/makeMoveB/makeSEEMove on a position that outlives the call (member or reference parameter; 8 named advancing '
     'functions excepted) every non-exceptional path to the exit or to the next make passes the matching unmake with the same move and undo record.'
     ' (8) the en-passant mask tables hold, for each file, exactly the neighbouring squares on the capturing rank (finite evaluation over the 8 files) and makeMove records an en-passant square only under that mask test; (4, 5 widths) every UndoInfo field and every packed field of the compact form is as wide as the Position attribute it holds unless a stated value range is narrower; (9) every fresh en-passant store is followed by fixupEPSquare (the normal form readFEN produces). Three genuine violations of the property on the pinned tree are recorded as known findings (8-bit clock and 16-bit move number in the compact form; makeMove records an en-passant square whose capture is illegal).'
-    ' Added later; (10) the attribute assignment inside every one-argument setter of Position has exactly the parameter on its right-hand side. (11) makeSEEMove / unMakeSEEMove remove and restore the same en-passant victim for every mover piece.')
+    ' Added later; (10) the attribute assignment inside every one-argument setter of Position has exactly the parameter on its right-hand side. (11) makeSEEMove / unMakeSEEMove remove and restore the same en-passant victim for every mover piece. (12) the normaliser TextIO::fixupEPSquare keeps an en-passant square exactly for a legal move of the mover\'s pawn to it (all 12 pieces x 2 destinations), scans legal moves only and clears the square otherwise.')
 UNDECIDED = ('equality of hash keys of rule-equal positions as values, bit-identity after arbitrary histories, FEN round trip of '
              'counters (value-level).')
 ASSUMPTIONS = ['material domain: <= 16 men per side, pawns + promoted officers <= 8 per side (the property\'s domain)',
@@ -81,6 +81,7 @@ def run(fb, rep, tier):
     c9_ep_normal_form(fb, rep)
     c10_setter_identity(fb, rep)
     c11_see_pair(fb, rep)
+    c12_ep_normaliser(fb, rep)
 
 
 # ----------------------------------------------------------------------------- .1
@@ -1121,3 +1122,91 @@ def c11_see_pair(fb, rep):
     rep.floor(clause, 'states of the SEE move pair in which an en-passant victim is removed', n_ep, 2)
     rep.ob(clause, 'K1 pairing', 'makeSEEMove / unMakeSEEMove: in every state the en-passant victim removed is exactly the one restored (square behind the destination, enemy pawn, pawn movers only)',
            not bad, mk.where, '%d states (12 mover pieces with their side to move x %d opaque comparison(s) %s); %s' % (n_states, len(atoms), atoms, bad[:3] if bad else 'all agree'), mk.sname)
+
+
+# ----------------------------------------------------------------------------- .12
+
+def c12_ep_normaliser(fb, rep, clause='C02.12'):
+    """K12 the normaliser itself.  Rule-equal positions get equal keys only because TextIO::fixupEPSquare drops an en-passant
+    square on which no en-passant capture is legal (readFEN, the game history and the UCI history all rely on it, C02.9 /
+    C11.8).  It must keep the square exactly when the legal move list contains a move of the side-to-move's *pawn* to that
+    square - any other piece moving there is not an en-passant capture.  The guards of the statement that marks the square
+    valid are evaluated for every moving piece x side to move x (destination is / is not the square); the list scanned must
+    have been through removeIllegal; and unless the mark was set the square is cleared."""
+    f = fb.find1('TextIO::fixupEPSquare')
+    if rep.need(clause, f, 'TextIO::fixupEPSquare') is None:
+        return
+    from ..peval import Evaluator, Unknown
+    WP, BP = fb.const('Piece::WPAWN'), fb.const('Piece::BPAWN')
+    npt, bking = fb.const('Piece::nPieceTypes'), fb.const('Piece::BKING')
+    if rep.need(clause, None if None in (WP, BP, npt, bking) else 1, 'Piece constants') is None:
+        return
+    EP, OTHER = 20, 21
+    st = {}
+    ev = Evaluator(fb, stubs={'Move::to': lambda e, t, env, d: st['to'], 'Move::from': lambda e, t, env, d: 12,
+                              'Position::getPiece': lambda e, t, env, d: st['piece'], 'Position::isWhiteMove': lambda e, t, env, d: st['wtm'],
+                              'Position::getEpSquare': lambda e, t, env, d: EP})
+    # the mark: a bool local assigned `true` inside the scan and tested before the square is cleared
+    marks = []
+    for b, i, e in f.events():
+        if e.get('k') == 'asg' and e.get('op') == '=' and isinstance(_strip(e.get('l')), dict) and _strip(e['l']).get('k') == 'var' and _strip(e['l']).get('vk') == 'local' and \
+                (_strip(e.get('r')) or {}).get('cv') == 1 and (_strip(e['l']).get('t') or '') == 'bool':
+            marks.append((b, i, e, _strip(e['l'])['id']))
+    if rep.floor(clause, 'statements that mark the en-passant square valid', len(marks), 1) is False or not marks:
+        return
+    decls = [v for _, _, e in f.events() if e.get('k') == 'decl' for v in e.get('vars', []) if v.get('init') is not None]
+    bad, n_states, n_keep = [], 0, 0
+    undec = 0
+    for pc in range(1, npt):
+        wtm = 1 if pc < bking else 0          # the legal moves are the moves of the side to move
+        for to in (EP, OTHER):
+            st.update({'to': to, 'piece': pc, 'wtm': wtm})
+            env = {}
+            for _ in range(2):
+                for v in decls:
+                    try:
+                        env[('v', v['id'])] = ev.eval(v['init'], env)
+                    except Unknown:
+                        pass
+            keep = False
+            for b, i, e, vid in marks:
+                vals = []
+                for c, side in G.guard_trees(f, set(f.blocks), b):
+                    try:
+                        vals.append(bool(ev.eval(c, env)) == side)
+                    except Unknown:
+                        vals.append(None)
+                if any(v is False for v in vals):
+                    continue
+                if not any(v is True for v in vals):
+                    undec += 1
+                keep = True
+            n_states += 1
+            n_keep += 1 if keep else 0
+            want = (to == EP) and pc == (WP if wtm else BP)
+            if keep != want:
+                bad.append('piece %d moving to %s: square %s' % (pc, 'the en-passant square' if to == EP else 'another square', 'kept' if keep else 'not kept'))
+    if undec:
+        rep.broken(clause, 'the guards of the valid-mark in fixupEPSquare are not evaluable (%d states)' % undec)
+        return
+    rep.floor(clause, 'states in which the en-passant square is kept', n_keep, 2 if not bad else 0)
+    rep.ob(clause, 'K12 finite evaluation', 'fixupEPSquare keeps the en-passant square exactly for a move of the mover\'s pawn to it (12 pieces x 2 destinations)', not bad,
+           R.site(f, marks[0][2]), '%d states; %s' % (n_states, '; '.join(bad[:4]) if bad else 'all as wanted'), f.sname)
+    # the scanned list holds legal moves only
+    gen = [(b, i) for b, i, e in f.events() if e.get('k') == 'call' and cname(e) == 'MoveGen::pseudoLegalMoves']
+    filt = lambda e: e is not None and e.get('k') == 'call' and cname(e) in ('MoveGen::removeIllegal',)
+    legal_only = bool(gen) and all(f.path_avoiding(pos, lambda e, m=marks: e is not None and any(e is x[2] for x in m), filt) is None for pos in gen)
+    rep.ob(clause, 'K2 must-pass-through', 'fixupEPSquare scans legal moves only (removeIllegal between generation and the scan)', legal_only, f.where, '%d generation call(s)' % len(gen), f.sname)
+    # unless marked, the square is cleared
+    mark_ids = {m[3] for m in marks}
+    clears = []
+    for b, i, e in f.events():
+        if e.get('k') == 'call' and cname(e) == 'Position::setEpSquare':
+            try:
+                v = ev.eval(e['args'][0], {})
+            except Unknown:
+                v = None
+            gs = G.guard_trees(f, set(f.blocks), b)
+            if v is not None and v < 0 and any((not side) and isinstance(_strip(c), dict) and _strip(c).get('k') == 'var' and _strip(c).get('id') in mark_ids for c, side in gs):
+                clears.append(e)
+    rep.ob(clause, 'K2 must-pass-through', 'fixupEPSquare clears the square when the scan did not mark it valid', len(clears) >= 1, f.where, '%d clearing call(s) under `!mark`' % len(clears), f.sname)
